@@ -84,6 +84,9 @@ Definition k2_witness : tree :=
 Definition k5_witness : tree := Nd [97; 58; 98] [Nd [99] []; Nd [97; 58; 99] []].
 Definition k4_witness : tree := Nd [120] [].
 Definition slash : str := [47].
+(* K6: a(b) and a(c) *)
+Definition k6_tree1 : tree := Nd [97] [Nd [98] []].
+Definition k6_tree2 : tree := Nd [97] [Nd [99] []].
 (* a(b [edge label 1], c(d [edge color r])) *)
 Definition ex_tree_s : tree :=
   Nd [97] [Na [98] [(101 :: s_label, VStr [49])] []; Nd [99] [Na [100] [(101 :: s_color, VStr [114])] []]].
@@ -264,6 +267,16 @@ Example C18_dot_ids_refuted :
   exists t, tsize t = 13 /\ paths_distinct slash t = true /\ no_label_has_colon t = true
             /\ graph_ids_distinct (dot_nodes slash t) = false.
 Proof. exists k2_witness. vm_compute. repeat split. Qed.
+
+(* K6: a list of trees in one call: `name_dict` starts empty for every tree, so equal labels in
+   different trees get the same id (here a0 twice), although each tree alone is fine *)
+Example C18_dot_multi_tree_refuted :
+  exists t1 t2,
+    prop_C18_gf [t1] (dot_forest_nodes slash [t1]) (dot_forest_edges slash [t1]) = true
+    /\ prop_C18_gf [t2] (dot_forest_nodes slash [t2]) (dot_forest_edges slash [t2]) = true
+    /\ graph_ids_distinct (dot_forest_nodes slash [t1; t2]) = false
+    /\ prop_C18_gf [t1; t2] (dot_forest_nodes slash [t1; t2]) (dot_forest_edges slash [t1; t2]) = false.
+Proof. exists k6_tree1, k6_tree2. vm_compute. repeat split. Qed.
 
 (* K5: a name with a colon: pydot cuts the vertex name, two vertices are called "a" and the edges
    end in names that are no vertices *)
